@@ -62,7 +62,7 @@ def reload_stages(ctx, deq=False, sim=True):
         return
     bases = (0, core.BASES["2^64-40"]) if ctx.quick() else tuple(core.BASES.values())
     c = consts_for(SIM_FAMS | {"reload"} | sh, ReloadWeight=8, **extra)
-    stages.stage_sim(ctx, "ProtoSim", num=120 if ctx.quick() else 2500, depth=30 if ctx.quick() else 45,
+    stages.stage_sim(ctx, "ProtoSim", num=120 if ctx.quick() else 600, depth=30 if ctx.quick() else 40,
                      consts=c, bases=bases)
 
 
@@ -204,7 +204,8 @@ def byte_faults(ctx):
     env2 = universe.Env(g, consts_for(set()))
     for y in ("y1", "y2", "y3"):
         env2.obj[y].module = None
-    env2.obj["v1"].symbolic_expressions.clear()
+    for v in ("v1", "v2"):
+        env2.obj[v].symbolic_expressions.clear()   # their symbols were just detached: keep the file self-contained
     env2.obj["v1"].address = 0
     env2.obj["v1"].size = 4
     env2.obj["v1"].contents = bytearray(b"\x01\x02")
